@@ -1060,7 +1060,10 @@ def c16_mc(work, quick, violations):
 
 def plan_c16(prop, tier, seed, t0):
     quick = tier == "quick"
-    return scenario_check(prop, tier, seed, t0, cancel_scenarios(seed, quick=quick), mc=c16_mc,
+    # ... plus the wake-up hand-over families of C06 in which a waiting or woken consumer is
+    # abandoned (W5, W7, W8): a subscription wedged by an abandoned consumer is a C16 matter too
+    handover = [s for s in c06_scenarios(6 if quick else 60, seed) if any(w in s["id"] for w in ("-W5-", "-W7-", "-W8-"))]
+    return scenario_check(prop, tier, seed, t0, cancel_scenarios(seed, quick=quick) + handover, mc=c16_mc,
                           explore=[("consumers", 48, 2000), ("mixed", 32, 1000)])
 
 
